@@ -139,12 +139,13 @@ Fixpoint has_series (t : tree) : bool :=
 (* where a repeated pattern sits: among the alternatives that follow a connector (the right operand of some series:
    "a.[b,b]", "a.[b,b].c" - there the compiled alternatives become children of one ObserverGraph node, finding F17), or
    elsewhere (top level "x.y, x.y", a leading group "[a,a]:b") *)
-Fixpoint dup_right (t : tree) : bool :=
+Fixpoint dup_right_l (t : tree) (l : link) : bool :=      (* l: what follows t *)
   match t with
-  | TSeries l _ r => has_dup (doc_paths r) || dup_right l || dup_right r
-  | TPar l r => dup_right l || dup_right r
+  | TSeries a c b => has_dup (doc_paths_l b l) || dup_right_l a (LConn c) || dup_right_l b l
+  | TPar a b => dup_right_l a l || dup_right_l b l
   | _ => false
   end.
+Definition dup_right (t : tree) : bool := dup_right_l t LEnd.
 Fixpoint dup_right_e (e : expr) : bool :=
   match e with
   | ESeries a b => has_dup (paths b) || dup_right_e a || dup_right_e b
